@@ -7,7 +7,7 @@ Every entry is one solver query family (one `#[kani::proof]` = one monomorphic i
 HARNESSES = []
 
 
-def H(crate, path, props, tier="quick", kind="proof", timeout_s=600, mem_gb=2, stubbing=False, cbmc_args=(), expect_fail=(), bounds="", inst="", unwind=None, note=""):
+def H(crate, path, props, tier="quick", kind="proof", timeout_s=600, mem_gb=2, stubbing=False, cbmc_args=(), expect_fail=(), bounds="", inst="", unwind=None, note="", tags=()):
     HARNESSES.append(
         dict(
             crate=crate,
@@ -25,6 +25,7 @@ def H(crate, path, props, tier="quick", kind="proof", timeout_s=600, mem_gb=2, s
             inst=inst,
             unwind=unwind,
             note=note,
+            tags=list(tags),
         )
     )
 
@@ -137,6 +138,219 @@ H("kani-slice", "strings::panic_str_bad_index_core", ["C09"], tier="thorough", k
   inst="as panic_str_bad_index with core validity", unwind=10, timeout_s=3600, mem_gb=8, note=SL_STUBS)
 H("kani-slice", "strings::panic_str_bad_index", ["C09"], kind="must_panic", expect_fail=[r"assert_char_boundary|slice_error_fail|str::|remove|slice_index|slice_end|slice_start|panic"], stubbing=True, bounds=STB,
   inst="insert / insert_str / remove / truncate / replace_range with every index that is out of range or not a char boundary", unwind=10, timeout_s=1200, mem_gb=4, note=SL_STUBS)
+
+# ------------------------------------------------------------------------------------------------
+# E-arena: the real arena on verification base allocators (48-byte first chunk = 16 B capacity)
+# ------------------------------------------------------------------------------------------------
+ARB = "history <= 4 ops: new, filler A = L(<=6 B, align<=4), filler B = L(<=8 B, align<=8) [=> every legal bump position of the 16-byte chunk], ONE operation with N = L(<=16 B, align<=16); chunks <= 2; unwind 6"
+AR_STUBS = "base allocator = stub VA (concrete-size heap objects 48/112/240 B, concrete just-in-time budget, logged grants); std::alloc::handle_alloc_error stubbed by panic"
+
+
+def A(mod, name, props, inst, tags=(), **kw):
+    kw.setdefault("timeout_s", 1800)
+    kw.setdefault("mem_gb", 8)
+    kw.setdefault("bounds", ARB)
+    H("kani-arena", "%s::%s" % (mod, name), props, stubbing=True, inst=inst, unwind=6, note=AR_STUBS, tags=tags, **kw)
+
+
+OPS_ALL = ["op0", "op1", "op2", "op3", "op4", "op5", "unfit"]
+STEP_PROPS = ["C01", "C02", "C13"]
+for name, inst, tags, tier in [
+    ("step_up1_bump_b0", "up, MIN_ALIGN 1, &Bump, no new chunk: all 6 ops", OPS_ALL + ["up", "b0"], "quick"),
+    ("step_down1_bump_b0", "down, MIN_ALIGN 1, &Bump, no new chunk: all 6 ops", OPS_ALL + ["b0"], "quick"),
+    ("step_up8_bump_b0", "up, MIN_ALIGN 8", OPS_ALL + ["up", "b0"], "thorough"),
+    ("step_down16_bump_b0", "down, MIN_ALIGN 16 (every block 16-aligned: no unfit shrink)", OPS_ALL[:-1] + ["b0"], "thorough"),
+    ("step_up4_scope_b0", "up, MIN_ALIGN 4, through BumpScope (as_scope)", OPS_ALL + ["up", "b0"], "thorough"),
+    ("step_up1_nodealloc_b0", "up, WithoutDealloc(&bump)", OPS_ALL + ["up", "b0"], "thorough"),
+    ("step_down1_nodealloc_b0", "down, WithoutDealloc(&bump)", OPS_ALL + ["b0"], "thorough"),
+    ("step_up1_noshrink_b0", "up, WithoutShrink(&bump)", OPS_ALL + ["up", "b0"], "quick"),
+    ("step_down1_noshrink_b0", "down, WithoutShrink(&bump)", OPS_ALL + ["b0"], "thorough"),
+    ("step_up1_set_nodealloc_b0", "up, DEALLOCATES = false", OPS_ALL + ["up", "b0"], "thorough"),
+    ("step_down1_set_noshrink_b0", "down, SHRINKS = false", OPS_ALL + ["b0"], "thorough"),
+]:
+    A("step", name, STEP_PROPS + ["C07"], inst, tags=tags, tier=tier, mem_gb=7, timeout_s=2400)
+SWB = "history <= 4 ops: new, symbolic fillers A and B (every legal position of the 16-byte chunk), ONE operation whose new layout is CONCRETE and cannot fit (chunk switch certain; base allocator grants chunk 2 = 112 B); unwind 6"
+for name, inst, tags, tier in [
+    ("step_up1_switch_alloc", "up: allocate / allocate_zeroed / deallocate+allocate of L(24,8) => chunk 2", ["op0", "op5", "b1"], "quick"),
+    ("step_up1_switch_grow", "up: grow / grow_zeroed to L(20,4) => chunk 2", ["op2", "b1"], "quick"),
+    ("step_up1_switch_shrink_unfit", "up: shrink of an 8-byte block to L(8,16) (unfit alignment)", ["op4", "unfit"], "thorough"),
+    ("step_down1_switch_alloc", "down: allocate / allocate_zeroed / deallocate+allocate of L(24,8) => chunk 2", ["op0", "op5", "b1"], "quick"),
+    ("step_down1_switch_grow", "down: grow / grow_zeroed to L(20,4) => chunk 2", ["op2", "b1"], "thorough"),
+    ("step_down8_switch_alloc", "down, MIN_ALIGN 8: allocate L(18,1) => chunk 2", ["op0", "b1"], "thorough"),
+    ("step_up4_switch_grow_noshrink", "up, MIN_ALIGN 4, WithoutShrink: grow to L(24,2) => chunk 2", ["op2", "b1"], "thorough"),
+]:
+    A("step", name, STEP_PROPS + ["C12"], inst, tags=tags, tier=tier, mem_gb=8, timeout_s=2400, bounds=SWB)
+
+# C14 claim
+for name, inst, tags, tier in [
+    ("claim_up1_b0", "up, guard allocates inside the first chunk", [], "quick"),
+    ("claim_up1_b1", "up, guard's request L(24,8) creates chunk 2", ["b1"], "quick"),
+    ("claim_down1_b0", "down", [], "quick"),
+    ("claim_down8_b1", "down, MIN_ALIGN 8, chunk 2 created through the guard", ["b1"], "thorough"),
+    ("claim_up16_b0", "up, MIN_ALIGN 16", [], "thorough"),
+    ("claim_unallocated", "claim on an unallocated arena (GUARANTEED_ALLOCATED = false)", [], "quick"),
+]:
+    A("claim", name, ["C14"], inst, tags=tags, tier=tier, mem_gb=6, bounds="new, pre-claim block L(<=4,<=4), claim, every kind of request through the handle (any layout <=16 B / any usize), allocation + scope + nested claim through the guard, drop, allocation after; chunks <= 2; unwind 6")
+H("kani-arena", "claim::panic_claim_twice", ["C14"], kind="must_panic", expect_fail=[r"already_claimed"], stubbing=True, inst="second claim() on a claimed handle", unwind=6, timeout_s=900, mem_gb=4, note=AR_STUBS, bounds="1 chunk")
+H("kani-arena", "claim::panic_alloc_on_claimed", ["C14", "C07"], kind="must_panic", expect_fail=[r"error_behavior::panic::claimed"], stubbing=True, inst="panicking alloc / reserve on a claimed handle", unwind=6, timeout_s=900, mem_gb=4, note=AR_STUBS, bounds="1 chunk")
+
+# C03 scopes
+SCB = "new, filler L(<=6,<=4) with a content byte, scope with a workload of two allocations (symbolic L(<=16,<=16), L(<=8,<=8); with budget the first is the concrete L(24,8) => chunk 2), leave, replay the same workload; chunks <= 2; unwind 6"
+for name, inst, tags, tier in [
+    ("scope_scoped_up1_b1", "scoped(), up, workload acquires chunk 2", ["b1"], "quick"),
+    ("scope_scoped_down1_b1", "scoped(), down, workload acquires chunk 2", ["b1"], "thorough"),
+    ("scope_guard_drop_up1_b1", "scope_guard() + drop", ["b1"], "thorough"),
+    ("scope_guard_reset_up1_b0", "scope_guard() + reset() + second scope from the same guard", ["fail"], "quick"),
+    ("scope_checkpoint_up1_b1", "checkpoint() + reset_to()", ["b1"], "quick"),
+    ("scope_checkpoint_down4_b1", "checkpoint() + reset_to(), down, MIN_ALIGN 4", ["b1"], "thorough"),
+    ("scope_aligned_up1_b1", "scoped_aligned::<8>()", ["b1"], "thorough"),
+    ("scope_aligned_down1_b0", "scoped_aligned::<8>(), down, inside the first chunk", ["fail"], "quick"),
+]:
+    A("scope", name, ["C03"] + (["C18"] if "aligned" in name else []), inst, tags=tags, tier=tier, mem_gb=8, bounds=SCB)
+
+# C05 chunk release (logging stub checks every deallocate)
+C5B = "new -> <= 2 symbolic allocations that may create chunks 2 and 3 -> end; symbolic failure mask over the base-allocator calls; chunks <= 3 (down: 2); unwind 7"
+for name, inst, tags, tier in [
+    ("release_drop_up1_c3", "drop, up, <= 3 chunks", ["c3"], "quick"),
+    ("release_reset_up1_c3", "reset() then drop, up, <= 3 chunks", ["c3"], "thorough"),
+    ("release_reset_to_start_up1_c2", "reset_to_start() then drop", [], "quick"),
+    ("release_scope_up1_c2", "scope exit then drop", [], "thorough"),
+    ("release_raw_up1_c2", "into_raw / from_raw then drop", [], "thorough"),
+    ("release_drop_down1_c2", "drop, down, <= 2 chunks", [], "quick"),
+    ("release_reset_down1_c2", "reset() then drop, down", [], "quick"),
+    ("release_drop_up1_extra8_c2", "base allocator hands out 8 bytes more than requested", [], "thorough"),
+    ("release_reset_down1_extra24_c2", "down, base allocator hands out 24 bytes more", [], "thorough"),
+    ("release_unallocated_unused", "unused unallocated Bump: 0 base-allocator calls", [], "quick"),
+]:
+    A("chunks", name, ["C05"], inst, tags=tags, tier=tier, mem_gb=10, timeout_s=2400, bounds=C5B)
+
+# C10 statistics
+C10B = "new -> one allocation (symbolic L(<=24,<=16) in the first chunk, or concrete L(24,4) creating chunk 2) -> follow-up in {none, scope, reset_to_start, reset, deallocate} -> claim; 3 header shapes; chunks <= 2; unwind 6"
+for name, inst, tags, tier in [
+    ("stats_va_up1_b1", "zero-sized allocator (32-byte header), up, chunk 2 created", ["b1"], "quick"),
+    ("stats_va_down1_b1", "zero-sized allocator, down, chunk 2 created", ["b1"], "quick"),
+    ("stats_va_up8_b0", "MIN_ALIGN 8, first chunk only", ["fits", "b0"], "thorough"),
+    ("stats_va_down16_b0", "down, MIN_ALIGN 16", ["fits", "b0"], "thorough"),
+    ("stats_va_extra8_up1_b1", "base allocator hands out 8 bytes more", ["b1"], "thorough"),
+    ("stats_stateful_up1_b1", "stateful allocator (48-byte header), up", ["b1"], "quick"),
+    ("stats_stateful_down1_b1", "stateful allocator (48-byte header), down", ["b1"], "quick"),
+    ("stats_over_up1_b0", "over-aligned allocator (64-byte header, align 32), up", ["fits"], "thorough"),
+    ("stats_over_down1_b0", "over-aligned allocator, down", ["fits"], "thorough"),
+    ("stats_unallocated_zero", "unallocated arena reports zeros", [], "quick"),
+]:
+    A("stats", name, ["C10"], inst, tags=tags, tier=tier, mem_gb=10, timeout_s=2400, bounds=C10B)
+
+# C18 alignment
+C18B = "new (outer MIN_ALIGN M), filler L(<=5,<=4), aligned::<N> with two allocations L(<=8,<=8) (with budget the first is the concrete L(20,4) => chunk switch while N is in force), allocation after; unwind 6"
+for name, inst, tags, tier in [
+    ("aligned_1_to_8_up_b0", "raise 1 -> 8, up", [], "quick"),
+    ("aligned_1_to_16_down_b0", "raise 1 -> 16, down", [], "quick"),
+    ("aligned_16_to_1_up_b0", "lower 16 -> 1, up", [], "quick"),
+    ("aligned_8_to_2_down_b0", "lower 8 -> 2, down", [], "thorough"),
+    ("aligned_4_to_1_up_b1", "lower 4 -> 1, up, chunk switch while lowered", ["b1"], "quick"),
+    ("aligned_16_to_2_down_b1", "lower 16 -> 2, down, chunk switch while lowered", ["b1"], "thorough"),
+    ("aligned_1_to_4_up_b1", "raise 1 -> 4, up, chunk switch while raised", ["b1"], "thorough"),
+    ("settings_raise_alignment", "with_settings / borrow_mut_with_settings raising MIN_ALIGN", [], "quick"),
+    ("nopanic_with_settings_ok", "conversions on an allocated, unclaimed arena never panic", [], "quick"),
+]:
+    A("align", name, ["C18"], inst, tags=tags, tier=tier, mem_gb=6, bounds=C18B)
+H("kani-arena", "align::panic_with_settings_unallocated", ["C18"], kind="must_panic", expect_fail=[r"error_behavior::panic::unallocated"], stubbing=True, inst="with_settings to GUARANTEED_ALLOCATED on an unallocated arena", unwind=6, timeout_s=900, mem_gb=4, note=AR_STUBS, bounds="-")
+H("kani-arena", "align::panic_with_settings_claimed", ["C18"], kind="must_panic", expect_fail=[r"error_behavior::panic::claimed"], stubbing=True, inst="with_settings to non-claimable on a claimed arena", unwind=6, timeout_s=900, mem_gb=4, note=AR_STUBS, bounds="-")
+
+# C17 entry points (two arenas in lock-step)
+C17B = "two arenas, same settings and stub, the same symbolic filler L(<=9,<=8), ONE request through two entry points; unwind 6"
+for name, inst, tier in [
+    ("entry_sized_u8_up1", "try_alloc_uninit::<u8> / try_allocate_sized vs allocate(Layout) / try_allocate_layout", "quick"),
+    ("entry_sized_u32_up1", "u32", "quick"),
+    ("entry_sized_u8x3_down1", "[u8;3], down", "quick"),
+    ("entry_sized_u64_down4", "u64, down, MIN_ALIGN 4", "thorough"),
+    ("entry_sized_u64x2_up8", "[u64;2], MIN_ALIGN 8", "thorough"),
+    ("entry_sized_u64x3_up1", "[u64;3] (does not fit: both fail)", "quick"),
+    ("entry_slice_u8_up1", "try_alloc_uninit_slice::<u8>(n) vs allocate(Layout::array), any n", "quick"),
+    ("entry_slice_u32_down1", "u32 slice, down, any n (overflow included)", "quick"),
+    ("entry_slice_u16_up4", "u16 slice, MIN_ALIGN 4", "thorough"),
+    ("entry_handles_up1", "Bump vs BumpScope vs &mut vs &dyn BumpAllocatorCore (allocate, try_allocate_layout) vs &mut dyn MutBumpAllocatorCore vs inside scoped()", "quick"),
+    ("entry_handles_down8", "handles, down, MIN_ALIGN 8", "thorough"),
+    ("entry_twin_up1", "alloc(v) vs try_alloc(v)", "quick"),
+    ("entry_twin_down1", "alloc(v) vs try_alloc(v), down", "thorough"),
+]:
+    A("entry", name, ["C17"], inst, tier=tier, mem_gb=6, bounds=C17B)
+
+# C07 failures
+for name, inst, tier in [
+    ("fail_constructors", "try_new / try_with_size(any) / try_with_capacity(any layout) / try_new_in under refusal", "quick"),
+    ("fail_overflow", "overflowing sizes (any usize beyond the limit): slice, reserve, BumpVec capacity, BumpVec::try_reserve", "quick"),
+    ("fail_switch_up1", "request that needs chunk 2 under refusal: allocate / allocate_zeroed / grow / try_reserve", "quick"),
+    ("fail_switch_down4", "same, down, MIN_ALIGN 4", "thorough"),
+    ("fail_unallocated", "first allocation of an unallocated arena under refusal, then recovery", "quick"),
+    ("fail_vec_up", "BumpVec growth under refusal: try_reserve / try_extend_from_slice_copy / try_resize / try_push", "quick"),
+    ("fail_vec_down", "same, down", "thorough"),
+]:
+    A("fail", name, ["C07"], inst, tier=tier, mem_gb=6, bounds="<= 3 base-allocator calls, concrete refusal schedule (budget 0 at the failing call); sizes symbolic; unwind 6")
+H("kani-arena", "fail::panic_alloc_refused", ["C07"], kind="must_panic", expect_fail=[r"hae_stub"], stubbing=True, inst="alloc / reserve / alloc_uninit_slice under refusal end in handle_alloc_error", unwind=6, timeout_s=900, mem_gb=4, note=AR_STUBS, bounds="1 chunk")
+H("kani-arena", "fail::panic_capacity_overflow", ["C07"], kind="must_panic", expect_fail=[r"capacity_overflow"], stubbing=True, inst="alloc_uninit_slice::<u64>(n), any overflowing n", unwind=6, timeout_s=900, mem_gb=4, note=AR_STUBS, bounds="1 chunk")
+
+# C12 cross-check of the placement model on the real arena
+C12X = "layout L(<=40 B, <=32), 3 header shapes, both directions, 4 creation paths; chunk sizes 48/112/240 (VAOver: 112/128/240/256); unwind 6"
+for name, inst, tier in [
+    ("c12x_with_capacity_va_up", "try_with_capacity_in, zero-sized allocator, up", "quick"),
+    ("c12x_with_capacity_va_down", "try_with_capacity_in, down", "quick"),
+    ("c12x_with_capacity_stateful_up", "try_with_capacity_in, stateful allocator", "thorough"),
+    ("c12x_with_capacity_over_down", "try_with_capacity_in, over-aligned allocator, down", "quick"),
+    ("c12x_with_capacity_over_up", "try_with_capacity_in, over-aligned allocator, up", "thorough"),
+    ("c12x_reserve_va_up", "try_reserve(n) then allocate", "quick"),
+    ("c12x_reserve_va_down", "try_reserve(n) then allocate, down", "thorough"),
+    ("c12x_slow_va_up", "slow path of allocate on a chunk that is too full", "quick"),
+    ("c12x_slow_va_down", "slow path, down", "quick"),
+    ("c12x_slow_va_extra24_up", "slow path, base allocator hands out 24 bytes more", "thorough"),
+    ("c12x_slow_stateful_down", "slow path, stateful allocator, down", "thorough"),
+    ("c12x_first_va_up", "first allocation of an unallocated arena", "quick"),
+    ("c12x_first_va_down", "first allocation, down", "thorough"),
+    ("c12x_first_stateful_up", "first allocation, stateful allocator", "thorough"),
+]:
+    A("c12x", name, ["C12"], inst, tags=["refused"], tier=tier, mem_gb=8, bounds=C12X)
+
+# C15 exclusive-borrow collections (+ their C08 capacity clauses)
+C15B = "concrete shape per harness (filler bytes, reserved capacity, <= 3 pushes, which push is granted a new chunk), symbolic element values; 16-byte first chunk; unwind 8"
+for name, inst, tags, tier in [
+    ("mutvec_u8_up1_stay_final", "MutBumpVec<u8>, up, stays in chunk 1, into_boxed_slice", ["stay"], "quick"),
+    ("mutvec_u8_down1_stay_final", "MutBumpVec<u8>, down", ["stay"], "quick"),
+    ("mutvec_u16_up4_stay_final", "MutBumpVec<u16>, MIN_ALIGN 4", ["stay"], "thorough"),
+    ("mutvec_u32_down1_stay_drop", "MutBumpVec<u32>, down, dropped", ["stay"], "thorough"),
+    ("mutvec_u8_up1_stay_drop", "MutBumpVec<u8>, dropped", ["stay"], "quick"),
+    ("mutvec_u16_up1_switch_final", "creation does not fit: vector starts in chunk 2", ["switch"], "quick"),
+    ("mutvec_u16_down1_switch_drop", "creation in chunk 2, down, dropped", ["switch"], "thorough"),
+    ("mutvec_u16_up1_grow_final", "3rd push re-prepares in chunk 2 and copies", ["switch"], "quick"),
+    ("mutvec_u16_down1_grow_final", "growth by copy, down", ["switch"], "quick"),
+    ("mutvec_u8_up1_grow_drop", "growth by copy then dropped", ["switch"], "thorough"),
+    ("mutvecrev_u8_up1_stay_final", "MutBumpVecRev<u8>, up", ["stay"], "quick"),
+    ("mutvecrev_u16_down1_stay_final", "MutBumpVecRev<u16>, down", ["stay"], "quick"),
+    ("mutvecrev_u16_up1_grow_final", "MutBumpVecRev growth by copy", ["switch"], "quick"),
+    ("mutvecrev_u8_down4_grow_drop", "MutBumpVecRev growth by copy, down, MIN_ALIGN 4, dropped", ["switch"], "thorough"),
+    ("mutvecrev_u32_up1_switch_final", "MutBumpVecRev<u32> created in chunk 2", ["switch"], "thorough"),
+]:
+    A("mutvec", name, ["C15", "C08"], inst, tags=tags, tier=tier, mem_gb=8, bounds=C15B)
+
+# arena-backed BumpVec (C06 / C08 / C16 halves)
+for name, props, inst, tags, tier in [
+    ("vec_push_grow_up1_newest", ["C08"], "BumpVec<u8> push beyond capacity, buffer is the newest block (in place upwards)", ["inplace"], "quick"),
+    ("vec_push_grow_down1_newest", ["C08"], "same, down (moves inside the chunk)", ["moved"], "quick"),
+    ("vec_push_grow_up1_blocked", ["C08"], "another block behind the buffer: must move", ["moved", "fail"], "thorough"),
+    ("vec_push_grow_up1_newchunk", ["C08"], "growth into chunk 2", ["moved"], "thorough"),
+    ("vec_push_grow_down4_newchunk", ["C08"], "growth into chunk 2, down, MIN_ALIGN 4", ["moved"], "thorough"),
+    ("vec_push_grow_drops_up1", ["C06", "C08"], "BumpVec<D>: elements moved not dropped; dropped exactly once with the vector", [], "quick"),
+    ("vec_push_grow_drops_down1_blocked", ["C06", "C08"], "BumpVec<D>, down, must move", [], "thorough"),
+    ("vec_push_grow_drops_up1_newchunk", ["C06", "C08"], "BumpVec<D>, growth into chunk 2", [], "thorough"),
+    ("vec_split_independent_up1", ["C16"], "BumpVec<u8>::split_off(..at / at..) then push / shrink_to_fit / drop / into_boxed_slice on one part", [], "quick"),
+    ("vec_split_independent_down1", ["C16"], "same, down", [], "quick"),
+    ("vec_split_independent_up1_b1", ["C16"], "same, growth may create chunk 2", [], "thorough"),
+    ("vec_reserve_any", ["C08", "C07"], "try_reserve / try_reserve_exact with ANY additional (full width)", [], "quick"),
+]:
+    A("vecs", name, props, inst, tags=tags, tier=tier, mem_gb=8, bounds="BumpVec with <= 4 elements in the 16-byte chunk, concrete shape, symbolic values / split point / follow-up; unwind 8")
+
+# C19 pool (sequentialised)
+H("kani-arena", "pool::pool_two_threads", ["C19"], stubbing=True, inst="2 logical threads, 4 scheduler steps (symbolic choice of the thread per step), then pool reset_to_start / reset / drop",
+  bounds="2 logical threads, <= 4 pool operations, <= 2 arenas of one 48-byte chunk; real preemption NOT modelled", unwind=7, timeout_s=3000, mem_gb=16, note=AR_STUBS + "; std::sync::Mutex::lock stubbed by must-succeed try_lock")
 
 
 def for_property(pid, tier):
